@@ -17,7 +17,39 @@ const (
 	String
 )
 
+// StrAsInt: encode the String sort as Int (strings are only compared for equality in the code in scope;
+// str.++ / str.len become uninterpreted). Constants map injectively to integers, "" to 0.
+var StrAsInt = false
+
+var strCodes = map[string]int64{"": 0}
+var strDecode = map[int64]string{0: ""}
+
+func strCode(s string) int64 {
+	mu.Lock()
+	defer mu.Unlock()
+	if c, ok := strCodes[s]; ok {
+		return c
+	}
+	c := int64(len(strCodes)) + 1000
+	strCodes[s] = c
+	strDecode[c] = s
+	return c
+}
+
+// DecodeStr maps a model integer back to a string value.
+func DecodeStr(n int64) string {
+	mu.Lock()
+	defer mu.Unlock()
+	if s, ok := strDecode[n]; ok {
+		return s
+	}
+	return fmt.Sprintf("v%d", n)
+}
+
 func (s Sort) String() string {
+	if s == String && StrAsInt {
+		return "Int"
+	}
 	switch s {
 	case Bool:
 		return "Bool"
@@ -466,6 +498,9 @@ func (t *Term) render(arg func(*Term) string) string {
 			}
 			return t.I.String()
 		case String:
+			if StrAsInt {
+				return fmt.Sprintf("%d", strCode(t.S))
+			}
 			return smtString(t.S)
 		}
 	}
@@ -497,8 +532,14 @@ func (t *Term) render(arg func(*Term) string) string {
 		op = "mod"
 	case OpConcat:
 		op = "str.++"
+		if StrAsInt {
+			op = "uf_concat"
+		}
 	case OpStrLen:
 		op = "str.len"
+		if StrAsInt {
+			op = "uf_strlen"
+		}
 	case OpApp:
 		op = symName(t.Name)
 		if len(t.Args) == 0 {
